@@ -92,6 +92,17 @@ def model_class():
                                    "special", 10)
             if self.variant % 2:
                 sim.schedule_event_rel(self.T(0.5), self, "special", 1)
+            # two events at one instant with one priority, the first
+            # scheduled now, the second by a handler at 2.5: their order is
+            # the order of scheduling, whatever else goes on in the process
+            # (forty event numbers are used up first by requests that are
+            # withdrawn at once, so the older event carries a number that a
+            # counter started afresh elsewhere stays below for a while)
+            for _ in range(40):
+                sim.cancel_event(sim.schedule_event_rel(self.T(1.0), self,
+                                                        "special", 5))
+            sim.schedule_event_rel(self.T(3.0), self, "tie", 5, tag="old")
+            sim.schedule_event_rel(self.T(2.5), self, "mk", 5)
 
         def now(self):
             return float(self.simulator.simulator_time)
@@ -153,6 +164,14 @@ def model_class():
                 self.wt.register(d, float(self.q))
                 sim.schedule_event_rel(self.T(d), self, "depart", 5, svc=d)
             sim.schedule_event_rel(self.T(self.ia.draw()), self, "arrive")
+
+        def mk(self):
+            self.hook("mk")
+            self.simulator.schedule_event_rel(self.T(0.5), self, "tie", 5,
+                                              tag="new")
+
+        def tie(self, tag):
+            self.hook("tie-" + tag)
 
         def depart(self, svc):
             self.hook("depart")
@@ -227,8 +246,11 @@ def wait_idle(sim, s):
     s.wait_quiescent()
 
 
-def target_replication(sim, m, rep, rec, s):
-    """initialize + run to the end (resuming pauses); returns digest"""
+def target_replication(sim, m, rep, rec, s, meanwhile=None, T=None):
+    """initialize + run to the end (resuming pauses); returns digest.
+    meanwhile = (when, callable): the callable (work on ANOTHER simulator in
+    the same process) is run after initialize ("after-init") or while this
+    replication is paused by a bounded run ("paused")"""
     from pydsol.core.utils import DSOLError
     d = {}
     try:
@@ -250,6 +272,11 @@ def target_replication(sim, m, rep, rec, s):
     d["same_objects"] = all(m.get_output_statistic(k) is o for k, o in
                             (("arr", m.cnt), ("svc", m.tal), ("wt", m.wt),
                              ("q", m.per)))
+    if meanwhile is not None:
+        if meanwhile[0] == "paused":
+            sim.run_up_to(rep.start_sim_time + T(2.0))
+            wait_idle(sim, s)
+        meanwhile[1]()
     for _ in range(4):
         try:
             sim.start()
@@ -283,6 +310,13 @@ PRIORS = [("none",), ("init-only",), ("init-twice",), ("step", 1),
           ("same-rep", ("ended",)), ("same-rep", ("upto", 1.0)),
           # twenty earlier replications, each with another seed for the
           # model's long-lived stream
+          # another simulator with another instance of the model is set up
+          # (and stepped / run) in the same process after this replication
+          # was initialised, or while it is paused at time 2
+          ("other-sim", "after-init", "init"), ("other-sim", "paused", "init"),
+          ("other-sim", "after-init", "run"), ("other-sim", "paused", "run"),
+          ("other-sim", "paused", "step3"),
+          ("other-sim", "after-init", "tiny"), ("other-sim", "paused", "tiny"),
           ("chain",) + (("init-only",),) * 20,
           ("chain",) + (("step", 1),) * 17 + (("ended",),),
           ("chain",) + (("same-rep", ("init-only",)),) * 3]
@@ -325,6 +359,8 @@ def run_case(case):
                 try:
                     for ci, prior in enumerate(chain):
                         k = prior[0]
+                        if k == "other-sim":
+                            continue
                         same = k == "same-rep"
                         if same:
                             prior = prior[1]
@@ -425,9 +461,33 @@ def run_case(case):
                     notes.append(("prior-raised", type(ex).__name__))
             m.stop_at = m.fault_at = m.init_at = None
             m.next_seed = 777
+            mw = None
+            if chain[0][0] == "other-sim":
+                def other(how=chain[0][2]):
+                    sim2 = simc("other")
+                    m2 = QModel(sim2, T, variant)
+                    if how == "tiny":
+                        # a model that schedules nothing at all
+                        from pydsol.core.model import DSOLModel
+                        m2 = type("Tiny", (DSOLModel,), {
+                            "construct_model": lambda self: None})(sim2)
+                    sim2.initialize(m2, rep())
+                    wait_idle(sim2, s)
+                    if how == "step3":
+                        for _ in range(3):
+                            sim2.step()
+                    elif how == "run":
+                        sim2.start()
+                        wait_idle(sim2, s)
+                    sim2.cleanup()
+                    wait_idle(sim2, s)
+                # the reference pauses at the same point, with nothing else
+                # going on
+                mw = (chain[0][1], other if label == "subject"
+                      else (lambda: None))
             d = target_replication(
                 sim, m, keep_rep[0] if label == "subject" and keep_rep[0]
-                is not None else rep(), rec, s)
+                is not None else rep(), rec, s, meanwhile=mw, T=T)
             d["notes"] = notes
             out[label] = d
             sim.cleanup()
